@@ -78,3 +78,36 @@ def unit_fill_m_s_symmetry(twin=False):
     r.add("reach.updates", DISCHARGED if n >= 4 else UNDECIDED, "syntactic", 0, "%d tot1 updates" % n, kind="vacuity")
     r.assumptions += ["text pairing of adjacent statements", "the fluxes tot1 / tot2 themselves come from find_J (not under contract)"]
     return r
+
+
+def unit_h_o_twin_blocks(twin=False):
+    """diffuse_implicit, step 3: hydrogen and oxygen carried by the diffusing solutes are booked by two blocks that must be the same up to the
+    element: the same cells receive and give under the same boundary conditions (a difference between the two blocks means that water's
+    hydrogen and oxygen are moved differently, which the mole balances of H and O cannot both survive)"""
+    TR = "src/phreeqcpp/transport.cpp"
+    q = "Phreeqc::diffuse_implicit"
+    fn = A.find_function(TR, q)
+    r = U.new_unit("C11.diffuse_implicit.hydrogen_and_oxygen_booked_alike", TR, q, fn)
+    def blocks(marker):
+        out = [x for x in A.walk(fn) if x.get("kind") == "IfStmt" and len(x["inner"]) >= 2 and (marker + "(") in text_of(TR, x["inner"][1])
+               and not any(y is not x and y.get("kind") == "IfStmt" and len(y["inner"]) >= 2 and (marker + "(") in text_of(TR, y["inner"][1]) and _contains(y, x) for y in A.walk(fn))]
+        return out
+    def _contains(outer, inner):
+        return any(z is inner for z in A.walk(outer["inner"][1])) if outer is not inner else False
+    hb = [x for x in A.walk(fn) if x.get("kind") == "IfStmt" and '"H"' in text_of(TR, x["inner"][0]) and "Set_total_h(" in text_of(TR, x["inner"][1])]
+    ob = [x for x in A.walk(fn) if x.get("kind") == "IfStmt" and '"O"' in text_of(TR, x["inner"][0]) and "Set_total_o(" in text_of(TR, x["inner"][1])]
+    if len(hb) != 1 or len(ob) != 1:
+        raise Undecided("hydrogen / oxygen blocks of diffuse_implicit not found (%d/%d)" % (len(hb), len(ob)))
+    def norm(b, el):
+        sts = [text_of(TR, x) for x in b["inner"][1].get("inner", [])]
+        sts = [t.replace("total_%s" % el, "total_X") for t in sts if t.rstrip(";") != "continue"]
+        return sts
+    H, O = norm(hb[0], "h"), norm(ob[0], "o")
+    if twin:
+        O = O[:-1]
+    r.add("same_statements_up_to_the_element", DISCHARGED if H == O else FAILED, "syntactic", 0, "first difference: %r" % (next(((a, b) for a, b in zip(H + [None], O + [None]) if a != b), None),), kind="structural")
+    ch = text_of(TR, hb[0]["inner"][0]).replace('"H"', '"X"'); co = text_of(TR, ob[0]["inner"][0]).replace('"O"', '"X"')
+    r.add("selected_by_the_same_test_on_the_element_name", DISCHARGED if ch == co else FAILED, "syntactic", 0, "%s / %s" % (ch, co), kind="structural")
+    r.proved_kind = "structural"
+    r.assumptions += ["text comparison of the two blocks after renaming total_h / total_o (comments and white space removed); what each block books is C11.diffuse_implicit.element_amounts..."]
+    return r
